@@ -1,7 +1,7 @@
 SPECIFICATION Spec
 CONSTANTS
   FrameLimit = 200
-  Alphabet <- MC_AlphaCore
-  Shapes <- MC_Shapes
+  Alphabet <- MC_AlphaFrame
+  Shapes <- MC_FrameShapes
 INVARIANTS Safe OnBoundary ScanAgrees Report
 CHECK_DEADLOCK FALSE
